@@ -71,7 +71,7 @@ def binop(I, op, a, b):
             try:
                 return a % _pyfmt(b)
             except Exception:
-                return StrSym()
+                return _symfmt(a, b)
         if isinstance(op, ast.Mult) and isinstance(a, str):
             return a * concrete_int(b)
         raise SymRaise("TypeError", "bad operands for str")
@@ -149,6 +149,33 @@ def _pyfmt(v):
     if isinstance(v, dict):
         return {k: _pyfmt(x) for k, x in v.items()}
     raise ValueError
+
+
+def _symfmt(fmt, args):
+    """'%' formatting where some arguments are symbolic: those print as <expr> (canonical,
+    so equal values give equal text); concrete ones are formatted by Python."""
+    import re as _re
+    if isinstance(args, dict):
+        return StrSym()
+    args = list(args) if isinstance(args, tuple) else [args]
+    out, pos, i = [], 0, 0
+    for m in _re.finditer(r"%(?:[-+ #0]*)(?:\*|\d+)?(?:\.(?:\*|\d+))?[diouxXeEfFgGcrsa%]", fmt):
+        out.append(fmt[pos:m.start()])
+        pos = m.end()
+        spec = m.group(0)
+        if spec == "%%":
+            out.append("%")
+            continue
+        nstar = spec.count("*")
+        vals = args[i:i + nstar + 1]
+        i += nstar + 1
+        try:
+            out.append(spec % tuple(_pyfmt(v) for v in vals))
+        except Exception:
+            v = vals[-1]
+            out.append("<" + (str(to_expr(v)) if _alg(v) else repr(v)) + ">")
+    out.append(fmt[pos:])
+    return "".join(out)
 
 
 def concrete_int(v):
@@ -612,6 +639,11 @@ def make_builtins(I):
             return x
         if isinstance(x, sp.Integer):
             return str(int(x))
+        if x is None or isinstance(x, bool):
+            return str(x)
+        if _alg(x):
+            e = to_expr(x)
+            return str(float(e)) if e.is_number and not e.is_Integer and e.is_real else "<" + str(e) + ">"
         if isinstance(x, SymObj) and x.cls is not None:
             m = x.cls.lookup("__str__")
             if m is not _MISSING:
@@ -661,6 +693,8 @@ def make_builtins(I):
     reg("type", lambda x: x.cls if isinstance(x, SymObj) else Builtin(type(x).__name__, None))
     reg("map", lambda f, *its: [I.call(f, list(t), {}) for t in zip(*[iterate(I, x) for x in its])])
     reg("object", lambda: I.new_obj("object"))
+    reg("id", lambda x: sp.Integer(x.id if isinstance(x, SymObj) else id(x)))
+    reg("hash", lambda x: sp.Integer(x.id if isinstance(x, SymObj) else hash(x)))
     reg("staticmethod", lambda f: ("static", f))
     reg("copy.copy", b_copy)
     for exc in ("ValueError", "TypeError", "KeyError", "RuntimeError", "AttributeError",
